@@ -193,10 +193,32 @@ def printed_tuples(out, tag):
 
 # ------------------------------------------------------------ trace batches
 
+def _tlc_safe(x):
+    """What the Json module of TLC cannot read (null, NaN, Infinity, integers
+    beyond 32 bits, floats) becomes a number no specification state holds; a
+    record field that carries it then simply fails its rule."""
+    if isinstance(x, dict):
+        return {str(k): _tlc_safe(v) for k, v in x.items()}
+    if isinstance(x, (list, tuple)):
+        return [_tlc_safe(v) for v in x]
+    if x is None:
+        return -778
+    if isinstance(x, bool) or isinstance(x, str):
+        return x
+    if isinstance(x, int):
+        return x if -2 ** 31 < x < 2 ** 31 else -779
+    if isinstance(x, float):
+        if x != x or x in (float('inf'), float('-inf')):
+            return -779
+        return int(x) if x == int(x) and abs(x) < 2 ** 31 else -777
+    return str(x)
+
+
 def validate_traces(traces, scratch, module='EngineTrace', cfg='EngineTrace.cfg',
                     timeout=1800, label='traces'):
     """Validate a list of traces (lists of records). Returns
     (rejected: {index0: stuck_record_index1}, states, transitions, diag)"""
+    traces = _tlc_safe(traces)
     diag = [0] * len(traces)
     path = os.path.join(scratch, label + '.json')
     with open(path, 'w') as f:
